@@ -91,12 +91,15 @@ pub fn is_avx512_available() -> bool {
         return forced;
     }
 
-    if cfg!(target_feature = "avx512f") {
+    // The 8 and 16 bit AVX512 routines use AVX512BW instructions, so both sets must be present.
+    if cfg!(all(target_feature = "avx512f", target_feature = "avx512bw")) {
         return true;
     }
 
     #[cfg(feature = "std")]
-    if std::arch::is_x86_feature_detected!("avx512f") {
+    if std::arch::is_x86_feature_detected!("avx512f")
+        && std::arch::is_x86_feature_detected!("avx512bw")
+    {
         return true;
     }
 
